@@ -245,6 +245,14 @@ def gen_packet(rng, start=None):
             exts, first = gen_ext_chain(rng, tnum)
             elen = sum(len(l.data) for l in exts)
             stack = [mk_ipv6(rng, first, elen + tlen)] + exts + tlayers
+            if exts and exts[0].name == "hbh" and rng.random() < 0.3:
+                # RFC 2675 jumbogram look-alike: payload length 0 and a jumbo payload option (0xC2, 4, u32)
+                # at the start of the hop-by-hop options, announcing about as many bytes as follow (the crate
+                # does not interpret the option: payload length 0 means "to the end of the slice")
+                real = elen + tlen
+                v = max(0, real + rng.choice([0, 0, 1, 8, 20, 30, 39, 40, 41, 48, -1, -8, rng.randrange(0, 90)]))
+                stack[0].data[4:6] = b"\x00\x00"
+                exts[0].data[2:8] = bytes([0xC2, 4]) + struct.pack(">I", v)
         net_et = ET_IPV4 if net == "ipv4" else ET_IPV6
         if rng.random() < 0.05:
             net_et = ET_IPV6 if net == "ipv4" else ET_IPV4
